@@ -206,6 +206,25 @@ theorem ext_set_aligned (h h' : Header) (id : UInt8) (data : Bytes) (hs : setExt
   simp only [List.length_append, List.length_replicate]
   exact pad4_aligned _
 
+/-- **ext_get_canonical**: on the canonical RFC 8285 encoding of ANY element list — one-byte form
+(ids 1..14, 1..16 data bytes) or two-byte form (ids 1..255, 0..255 data bytes), followed by any amount of
+padding — `get_extension(id)` returns the data of the first element carrying that id, and nothing for an
+id that is absent. -/
+theorem ext_get_canonical (h : Header) (id : UInt8) (els : List (Nat × Bytes)) (k : Nat) :
+    ((∀ e ∈ els, ElemOk e.1 e.2) → h.ext = some ⟨0xBEDE, encodeOne els ++ List.replicate k 0⟩ →
+      getExtension h id = lookup id.toNat els) ∧
+    ((∀ e ∈ els, Elem2Ok e.1 e.2) → h.ext = some ⟨0x1000, encodeTwo els ++ List.replicate k 0⟩ →
+      getExtension h id = lookup id.toNat els) := by
+  constructor
+  · intro hok he
+    simp only [getExtension, he]
+    rw [if_pos (by rw [c15OneByteProfile_val]; rfl)]
+    exact getOne_encodeOne els hok _ _
+  · intro hok he
+    simp only [getExtension, he]
+    rw [if_neg (by rw [c15OneByteProfile_val]; decide), if_pos (by rw [c15TwoByteProfile_val]; rfl)]
+    exact getTwo_encodeTwo els hok _ _
+
 example : setExtension (Header.new 96 1 2 3) 5 [0xAA, 0xBB] =
     .ok { Header.new 96 1 2 3 with ext := some ⟨0xBEDE, [0x51, 0xAA, 0xBB, 0]⟩ } := by
   simp [setExtension, Header.new, rebuild_nil, oneByteElem, pad4, u8]
